@@ -18,15 +18,15 @@ def dump(line, lo, hi):
         elif code==5: s='Crash n%d'%t[i+1]; i+=2
         elif code==6: s='Restart n%d t%d v%d'%tuple(t[i+1:i+4]); i+=4
         elif code==7:
-            nd=t[i+1]; ln=t[i+2]; ents=[(t[i+3+2*j],t[i+4+2*j]%1000) for j in range(ln)]; i+=3+2*ln; cm=t[i]; i+=1; na=t[i]; acks=t[i+1:i+1+na]; i+=1+na
+            nd=t[i+1]; ln=t[i+2]; ents=[(t[i+3+2*j],t[i+4+2*j]) for j in range(ln)]; i+=3+2*ln; cm=t[i]; i+=1; na=t[i]; acks=t[i+1:i+1+na]; i+=1+na
             s='Log n%d %s commit=%d acks=%s'%(nd,ents,cm,acks)
         elif code==8:
-            nd=t[i+1]; ln=t[i+2]; ents=[(t[i+3+2*j],t[i+4+2*j]%1000) for j in range(ln)]; i+=3+2*ln
+            nd=t[i+1]; ln=t[i+2]; ents=[(t[i+3+2*j],t[i+4+2*j]) for j in range(ln)]; i+=3+2*ln
             s='Durable n%d %s'%(nd,ents)
         elif code==9: s='RelAck q%d t%d i%d'%tuple(t[i+1:i+4]); i+=4
-        elif code==10: s='ReadReq c%d ctx%d idx%d'%(t[i+1],t[i+2]%1000,t[i+3]); i+=4
-        elif code==11: s='HbAck q%d c%d t%d ctx%d'%(t[i+1],t[i+2],t[i+3],t[i+4]%1000); i+=5
-        elif code==12: s='Serve c%d ctx%d idx%d'%(t[i+1],t[i+2]%1000,t[i+3]); i+=4
+        elif code==10: s='ReadReq c%d ctx%d idx%d'%(t[i+1],t[i+2],t[i+3]); i+=4
+        elif code==11: s='HbAck q%d c%d t%d ctx%d'%(t[i+1],t[i+2],t[i+3],t[i+4]); i+=5
+        elif code==12: s='Serve c%d ctx%d idx%d'%(t[i+1],t[i+2],t[i+3]); i+=4
         else: s='?? %d'%code; i+=1
         if lo<=n<=hi: print(n,s)
         n+=1
